@@ -875,7 +875,7 @@ class _ExpressionParser:
                 if not omitted_indices and self._next.type == 'indices':
                     generates_token = self._consume()
                     generates = generates_token.data
-                    generates_shape = tuple(_Length(pos) for pos, index in enumerate(generates, generates_token.pos) if not '0' <= index <= '9')
+                    generates_shape = tuple(_Length(pos) for pos, index in enumerate(generates, generates_token.pos))
                 else:
                     generates = ''
                     generates_shape = ()
